@@ -205,6 +205,7 @@ func verifyFunc(l *Loaded, spec *FuncSpec, prop string) (res *FuncResult) {
 	cov := &Obligation{Name: x.oblName("cover/requires"), Kind: "cover", Func: fn.String(), Hyps: append([]T(nil), st.PC...), Goal: TFalse, Expect: "sat"}
 	x.obls = append(x.obls, cov)
 	nReturned := 0
+	nSeen := 0
 	x.tryPath(func() { x.execBlock(st, fr, fn.Blocks[0], nil, func(s2 *State, result Val) {
 		fr2 := s2.Frames[0]
 		c := x.envFor(s2, x.entry, fr2, result)
@@ -239,8 +240,10 @@ func verifyFunc(l *Loaded, spec *FuncSpec, prop string) (res *FuncResult) {
 				}
 			}
 		}
-		if nReturned < 12 {
-			// reachability: some return path must be satisfiable (paths are not pruned, so single paths may be infeasible)
+		nSeen++
+		if nReturned < 12 || (nSeen%8 == 0 && nReturned < 72) {
+			// reachability: some return path must be satisfiable (paths are not pruned, so single paths may be infeasible);
+			// the first dozen return paths and a sample of the later ones are tried
 			nReturned++
 			x.obls = append(x.obls, &Obligation{Name: fmt.Sprintf("%s~%d", x.oblName("cover/return"), nReturned), Kind: "cover-any", Func: fn.String(), Hyps: append([]T(nil), s2.PC...), Goal: TFalse, Expect: "sat"})
 		}
@@ -571,7 +574,7 @@ func main() {
 	case "check":
 		os.Exit(cmdCheck(os.Args[2:]))
 	case "mapranges":
-		l, err := loadModule("/repo/module", []string{"./x/mhub2/...", "./x/oracle/..."}, nil, "")
+		l, err := loadModule(repoRoot+"/module", []string{"./x/mhub2/...", "./x/oracle/..."}, nil, "")
 		if err != nil {
 			fmt.Fprintln(os.Stderr, err)
 			os.Exit(2)
@@ -584,7 +587,7 @@ func main() {
 		pkg := fs.String("pkg", "keeper", "package name suffix")
 		fn := fs.String("func", "", "short function name")
 		fs.Parse(os.Args[2:])
-		l, err := loadModule("/repo/module", []string{"./x/mhub2/...", "./x/oracle/..."}, nil, "")
+		l, err := loadModule(repoRoot+"/module", []string{"./x/mhub2/...", "./x/oracle/..."}, nil, "")
 		if err != nil {
 			fmt.Fprintln(os.Stderr, err)
 			os.Exit(2)
